@@ -58,7 +58,12 @@ def simplify_stack(stack):
     Mx3 numpy array of int. :
         a simplified stack representing the original equation
     """
-    return cas_simplify(stack)
+    try:
+        return cas_simplify(stack)
+    except (OverflowError, MemoryError):
+        # an integer of the simplified expression would not fit in a command
+        # array (integers are exact, they never wrap around)
+        return reduce_stack(stack)
 
 
 def reduce_stack(stack):
